@@ -600,6 +600,7 @@ func checkProgram(in replayInput) {
 	}
 	removed := nBefore - len(ded.BC.Constants)
 	res.Count("dedup", line, removed > 0)
+	renumStream(in, orig.BC, before.consts, ded.BC, removed)
 	if nBefore <= maxModelConsts {
 		correspond(in, "dedup", line, before.consts, ded.BC, ids, "")
 	} else {
